@@ -49,6 +49,8 @@ type registry struct {
 	manifests map[string][]byte // "ns/model:tag" (lower-cased) -> manifest JSON
 	blobs     map[string][]byte // digest as spelled in the request path -> bytes
 	zeros     map[string]int64  // digest -> length of an all-zero body
+	chunks    map[string][][2]int64 // digest -> ranges the chunksums endpoint announces (client2 pulls)
+	faults    map[string]string     // "<digest>@<first byte of the range>" -> "404" | "corrupt"
 	ln        net.Listener
 	log       []string
 }
@@ -81,6 +83,22 @@ func startRegistry() {
 			w.Write(m)
 			return
 		}
+		if i := strings.Index(p, "/chunksums/"); i >= 0 {
+			// the chunksums endpoint of the new pull path: where to fetch the chunks, then one line per chunk
+			d := p[i+len("/chunksums/"):]
+			b, ok := reg.blobs[d]
+			cs, cok := reg.chunks[d]
+			if !ok || !cok {
+				http.NotFound(w, r)
+				return
+			}
+			w.Header().Set("Content-Location", "http://cdn.test/cdn/"+d)
+			for _, c := range cs {
+				sum := sha256.Sum256(b[c[0] : c[1]+1])
+				fmt.Fprintf(w, "sha256:%x %d-%d\n", sum, c[0], c[1])
+			}
+			return
+		}
 		if i := strings.Index(p, "/blobs/"); i >= 0 {
 			d := p[i+len("/blobs/"):]
 			if _, ok := reg.blobs[d]; !ok {
@@ -101,7 +119,23 @@ func startRegistry() {
 		reg.log = append(reg.log, r.Method+" cdn "+r.Header.Get("Range"))
 		b, ok := reg.blobs[d]
 		zn, zok := reg.zeros[d]
+		fault := ""
+		if rg := r.Header.Get("Range"); strings.HasPrefix(rg, "bytes=") {
+			fault = reg.faults[d+"@"+strings.SplitN(strings.TrimPrefix(rg, "bytes="), "-", 2)[0]]
+		}
 		reg.mu.Unlock()
+		switch fault {
+		case "404":
+			http.NotFound(w, r)
+			return
+		case "corrupt":
+			// bytes of the right length that are not the bytes of the blob
+			b2 := make([]byte, len(b))
+			for i := range b {
+				b2[i] = b[i] ^ 0x5a
+			}
+			b = b2
+		}
 		if zok {
 			// a procedural body: zn zero bytes (layers of more than one download part need > 100 MB)
 			http.ServeContent(w, r, "", time.Time{}, &zeroSeeker{size: zn})
@@ -299,6 +333,27 @@ func runOp(dir string, op map[string]any) map[string]any {
 			reg.manifests = map[string][]byte{}
 			reg.blobs = map[string][]byte{}
 			reg.zeros = map[string]int64{}
+			reg.chunks = map[string][][2]int64{}
+			reg.faults = map[string]string{}
+			if ms, ok := rg["manifests_raw"].(map[string]any); ok {
+				// the bytes of the manifest as the case spells them (their hash names the manifest blob)
+				for k, v := range ms {
+					reg.manifests[strings.ToLower(k)] = []byte(v.(string))
+				}
+			}
+			if cs, ok := rg["chunks"].(map[string]any); ok {
+				for k, v := range cs {
+					for _, c := range v.([]any) {
+						cc := c.([]any)
+						reg.chunks[k] = append(reg.chunks[k], [2]int64{int64(cc[0].(float64)), int64(cc[1].(float64))})
+					}
+				}
+			}
+			if fs, ok := rg["faults"].(map[string]any); ok {
+				for k, v := range fs {
+					reg.faults[k] = v.(string)
+				}
+			}
 			if ms, ok := rg["manifests"].(map[string]any); ok {
 				for k, v := range ms {
 					b, _ := json.Marshal(v)
@@ -319,7 +374,26 @@ func runOp(dir string, op map[string]any) map[string]any {
 			reg.log = nil
 			reg.mu.Unlock()
 		}
-		code, body = doJSON("POST", "/api/pull", map[string]any{"model": str(op, "name"), "insecure": true})
+		if c2, _ := op["client2"].(bool); c2 {
+			// the new pull path (OLLAMA_EXPERIMENT=client2): the routes as Serve builds them with a registry client
+			th, ok := num(op, "threshold")
+			if !ok {
+				th = 64
+			}
+			h, err := server.VerifClient2Routes(&server.Server{}, dir, int64(th), 1)
+			if err != nil {
+				panic(err)
+			}
+			b, _ := json.Marshal(map[string]any{"model": str(op, "name")})
+			req := httptest.NewRequest("POST", "/api/pull", bytes.NewReader(b))
+			req.Host = "127.0.0.1"
+			req.Header.Set("Content-Type", "application/json")
+			w := &rec{httptest.NewRecorder(), make(chan bool, 1)}
+			h.ServeHTTP(w, req)
+			code, body = w.Code, w.Body.String()
+		} else {
+			code, body = doJSON("POST", "/api/pull", map[string]any{"model": str(op, "name"), "insecure": true})
+		}
 		reg.mu.Lock()
 		res["registry_log"] = append([]string{}, reg.log...)
 		reg.mu.Unlock()
